@@ -676,4 +676,139 @@ Proof.
   - split; [now apply enter_step'|now apply start_from_enter'].
 Qed.
 
+(* ---------- exit ---------- *)
+
+Definition closel_at' (f : nat) : Prop := forall (L : list (titem T)) s o,
+  oof (close_list tk f s (map t_deed L)) = false ->
+  ts_ok s L -> ts_wf (defs s) L -> NoDup (ts_ids L) -> out_ok vis s o ->
+  out_ok vis (close_list tk f s (map t_deed L)) (lvs_close (tyme s) (rev (tflatten (rev L))) o) /\
+  frame (ts_ids L) (ts_ids L) s (close_list tk f s (map t_deed L)) /\
+  same_doers s (close_list tk f s (map t_deed L)) /\
+  (forall x, In x (ts_ids L) -> endedid (close_list tk f s (map t_deed L)) x).
+
+Definition gclose_at' (f : nat) : Prop := forall s n npc (re : T) kids o,
+  oof (gen_close tk f s n) = false ->
+  ts_ok s [IGroup n npc re kids] -> ts_wf (defs s) [IGroup n npc re kids] ->
+  NoDup (n :: ts_ids kids) -> out_ok vis s o ->
+  out_ok vis (gen_close tk f s n) (lvs_close (tyme s) (rev (tflatten kids)) o) /\
+  frame (n :: ts_ids kids) (n :: ts_ids kids) s (gen_close tk f s n) /\
+  same_doers s (gen_close tk f s n) /\
+  (forall x, In x (n :: ts_ids kids) -> endedid (gen_close tk f s n) x).
+
+Lemma gclose_from' f : closel_at' f -> gclose_at' (S (S f)).
+Proof.
+  intros CL s n npc re kids o O G W ND OK.
+  cbn [all t_ok1 t_wf1] in G, W. destruct G as [(Gn & Dq & K) _]. destruct W as [(NV & [kids0 D] & WK) _].
+  pose proof ND as ND'. apply NoDup_cons_iff in ND' as [Nn NDk].
+  rewrite gen_close_S, Gn, D in *. cbv zeta in *.
+  set (s1 := emit (set_gen s n (GRun npc)) Cease n) in *.
+  rewrite oof_set_gen, oof_emit in O.
+  rewrite close_own_S in *. cbv zeta in *.
+  change (get_sched s1 n) with (get_sched s n) in *. rewrite Dq in *.
+  unfold unrotate in *. rewrite split_mark_ts in *. rewrite <- map_rev in *.
+  set (s2 := set_deeds s1 n []) in *.
+  assert (F2 : frame [n] [n] s s2).
+  { unfold s2, s1. apply frame_deeds; [now left|]. apply frame_emit. apply frame_gen; [now left|]. apply frame_refl. }
+  assert (OK2 : out_ok vis s2 o).
+  { unfold s2, s1. apply ok_deeds. apply ok_emit_invis; [exact NV|]. now apply ok_gen. }
+  assert (K2 : ts_ok s2 (rev kids)).
+  { apply ts_ok_rev. eapply ts_ok_frame; [exact F2| |exact K].
+    intros x Hx. split; intros [Heq|[]]; subst x; contradiction. }
+  assert (ND2 : NoDup (ts_ids (rev kids))) by (eapply Permutation_NoDup; [apply ts_ids_rev|exact NDk]).
+  assert (Hrev : forall x, In x (ts_ids (rev kids)) <-> In x (ts_ids kids)).
+  { intro x. split; apply Permutation_in; [symmetry|]; apply ts_ids_rev. }
+  destruct (CL (rev kids) s2 o O K2 (ts_wf_rev vis z0 _ _ WK) ND2 OK2) as (OK' & F' & SD' & En').
+  set (s3 := close_list tk f s2 (map t_deed (rev kids))) in *.
+  change (tyme s2) with (tyme s) in OK'. rewrite rev_involutive in OK'.
+  assert (Ff : frame [n] [] s3 (set_gen (emit s3 Exit n) n GDone)).
+  { apply frame_gen; [now left|]. apply frame_emit. apply frame_refl. }
+  assert (F23 : frame (n :: ts_ids kids) (n :: ts_ids kids) s s3).
+  { eapply frame_trans.
+    - eapply frame_weaken; [| |exact F2]; intros x [->|[]]; now left.
+    - eapply frame_weaken; [| |exact F']; intros x Hx; right; now apply Hrev. }
+  split; [|split; [|split]].
+  - apply ok_gen. apply ok_emit_invis; [exact NV|exact OK'].
+  - apply frame_gen; [now left|]. apply frame_emit. exact F23.
+  - apply sd_gen, sd_emit. eapply sd_trans; [|exact SD']. unfold s2, s1. apply sd_deeds, sd_emit, sd_gen, sd_refl.
+  - intros x [Heq|Hx].
+    + subst x. split; [apply gen_set_gen_same|].
+      change (defs (set_gen (emit s3 Exit n) n GDone)) with (defs s3).
+      destruct F23 as (_ & -> & _). rewrite D. rewrite sched_set_gen, sched_emit.
+      destruct F' as (_ & _ & _ & FS). rewrite FS; [unfold s2; apply deeds_set_deeds_same|].
+      intro Hx. apply Nn. now apply Hrev.
+    + eapply endedid_frame; [exact Ff| |intros []|apply En'; now apply Hrev].
+      intros [Heq|[]]. subst x. contradiction.
+Qed.
+
+Lemma closel_step' f : closel_at' f -> gclose_at' f -> closel_at' (S f).
+Proof.
+  intros CL GC L s o O G W ND OK.
+  destruct L as [|it L].
+  - cbn [map] in *. rewrite close_list_S. split; [exact OK|]. split; [apply frame_refl|].
+    split; [apply sd_refl|intros x []].
+  - rewrite close_order_cons. cbn [map] in *. destruct it as [v|n npc re kids].
+    + cbn [all t_ok1 t_wf1 t_deed] in *. destruct G as [Gv GU]. destruct W as [[[Dv Pv] Vv] WU].
+      rewrite ts_ids_leaf in *. apply NoDup_cons_iff in ND as [Nv NDU].
+      change (lv_deed v :: map t_deed L) with (DDeed (lv_id v) (v_re v) :: map t_deed L) in *.
+      rewrite close_list_deed in *.
+      pose proof (oof_close_list _ _ _ _ O) as O1.
+      rewrite (leaf_close _ _ _ _ _ _ _ O1 Gv Dv) in *.
+      set (s1 := set_gen (emit (emit (set_gen s (lv_id v) (GRun (v_pc v))) Cease (lv_id v)) Exit (lv_id v)) (lv_id v) GDone) in *.
+      assert (F1 : frame [lv_id v] [] s s1).
+      { unfold s1. apply frame_gen; [now left|]. do 2 apply frame_emit. apply frame_gen; [now left|]. apply frame_refl. }
+      assert (OK1 : out_ok vis s1 (lvs_close (tyme s) (rev (tflat1 (ILeaf v))) o)).
+      { unfold s1. cbn [tflat1 rev app lvs_close]. apply ok_gen.
+        apply (ok_emit_vis vis (emit (set_gen s (lv_id v) (GRun (v_pc v))) Cease (lv_id v)) _ Exit (lv_id v) Vv).
+        apply (ok_emit_vis vis (set_gen s (lv_id v) (GRun (v_pc v))) _ Cease (lv_id v) Vv). now apply ok_gen. }
+      assert (GU1 : ts_ok s1 L).
+      { eapply ts_ok_frame; [exact F1| |exact GU]. intros x Hx. split; [|intros []].
+        intros [Heq|[]]. subst x. contradiction. }
+      destruct (CL L s1 _ O GU1 WU NDU OK1) as (OK' & F' & SD' & En').
+      split; [exact OK'|]. split; [|split].
+      * eapply frame_trans; [eapply frame_weaken; [| |exact F1]|eapply frame_weaken; [| |exact F']];
+          intros x Hx; cbn [In] in *; tauto.
+      * eapply sd_trans; [|exact SD']. unfold s1. apply sd_gen, sd_emit, sd_emit, sd_gen, sd_refl.
+      * intros x [Heq|Hx]; [|now apply En'].
+        subst x. eapply endedid_frame; [exact F'|exact Nv|exact Nv|].
+        apply ended_leaf_item; [unfold s1; apply gen_set_gen_same|split; assumption].
+    + pose proof G as G0. pose proof W as W0.
+      cbn [all t_ok1 t_wf1 t_deed] in G, W. destruct G as [Gg GU]. destruct W as [Wg WU].
+      rewrite ts_ids_group in *.
+      change (n :: ts_ids kids ++ ts_ids L) with ((n :: ts_ids kids) ++ ts_ids L) in ND.
+      pose proof (NoDup_app_l _ _ ND) as NDn. pose proof (NoDup_app_r _ _ ND) as NDU.
+      pose proof (NoDup_app_disj _ _ ND) as Disj.
+      cbn [t_deed] in *. rewrite close_list_deed in *.
+      pose proof (oof_close_list _ _ _ _ O) as O1.
+      assert (G1 : ts_ok s [IGroup n npc re kids]) by (cbn [all t_ok1]; auto).
+      assert (W1 : ts_wf (defs s) [IGroup n npc re kids]) by (cbn [all t_wf1]; auto).
+      destruct (GC s n npc re kids o O1 G1 W1 NDn OK) as (OK1 & F1 & SD1 & En1).
+      set (s1 := gen_close tk f s n) in *.
+      assert (GU1 : ts_ok s1 L).
+      { eapply ts_ok_frame; [exact F1| |exact GU]. intros x Hx. split; intro Hin; exact (Disj x Hin Hx). }
+      assert (WU1 : ts_wf (defs s1) L) by (destruct F1 as (_ & -> & _); exact WU).
+      assert (T1 : tyme s1 = tyme s) by (destruct F1 as (-> & _); reflexivity).
+      destruct (CL L s1 _ O GU1 WU1 NDU OK1) as (OK' & F' & SD' & En'). rewrite T1 in OK'.
+      split; [exact OK'|]. split; [|split].
+      * eapply frame_trans; [eapply frame_weaken; [| |exact F1]|eapply frame_weaken; [| |exact F']];
+          intros x Hx; cbn [In] in *; rewrite ?in_app_iff in *; tauto.
+      * eapply sd_trans; eassumption.
+      * intros x Hx.
+        assert (Hx' : In x (n :: ts_ids kids) \/ In x (ts_ids L)).
+        { cbn [In] in *. rewrite in_app_iff in Hx. tauto. }
+        destruct Hx' as [Hin|Hx']; [|now apply En'].
+        eapply endedid_frame; [exact F'|exact (Disj x Hin)|exact (Disj x Hin)|now apply En1].
+Qed.
+
+Lemma close_all' : forall f, closel_at' f /\ gclose_at' f /\ gclose_at' (S f).
+Proof.
+  induction f as [|f (CL & G0 & G1)].
+  - split; [|split].
+    + intros L s o O. rewrite close_list_O in O. discriminate.
+    + intros s n npc re kids o O. rewrite gen_close_O in O. discriminate.
+    + intros s n npc re kids o O G W. exfalso.
+      cbn [all t_ok1 t_wf1] in G, W. destruct G as [(Gn & _) _]. destruct W as [(_ & [kids0 D] & _) _].
+      rewrite gen_close_S, Gn, D in O. cbv zeta in O. rewrite close_own_O in O. discriminate.
+  - split; [now apply closel_step'|]. split; [exact G1|now apply gclose_from'].
+Qed.
+
 End HRun.
